@@ -241,6 +241,16 @@ def faults_base(model, light, want, base):
                     if label.startswith(ns.name + '.') and kind not in ('subtype',):
                         yield ('ns-imported', kind, label + '<-%s.%s' % (other.name, tgt[0].name), _specs(put(R(other.name, tgt[0].name))))
                         break
+        # the bare name of an imported namespace where a type is expected (lang_ref: a reference names a type or an alias)
+        for ns in model.namespaces:
+            imps = sorted(mm.imports_of(model, ns.name))
+            if not imps:
+                continue
+            seen_kinds = set()
+            for kind, label, put in sites:
+                if label.startswith(ns.name + '.') and kind not in ('subtype',) and kind not in seen_kinds:
+                    seen_kinds.add(kind)
+                    yield ('namespace-not-a-type', kind, label + '<-' + imps[0], _specs(put(R(None, imps[0]))))
         # prefix that is not a namespace
         for n, d in (all_structs + all_unions)[:2]:
             for kind, label, put in sites:
